@@ -26,6 +26,7 @@ structure DState where
   block : Block.BState := []
   bprog : Driver.BPReplay := {}                  -- the replay of the same events against the program model
   gate : Gate.GState := {}
+  noprog : Bool := false                         -- `noprog` line: protocol-level replay only (C17's hostile traces)
   gprog : Driver.GPR := {}                       -- replay of the gate trace against the program model (Model/GateProg.lean)
   feeds : List (String × List FeedOp) := []      -- per watched instance: records not yet drained (oldest first)
   patterns : List Bytes := []                    -- patterns of the second (filtered) watcher
@@ -74,22 +75,23 @@ def step (d : DState) (line : String) : DState × String :=
   | "bev" :: rest =>
     let (b, out) := Driver.blockOp d.block rest
     -- the same event must also be the next event of the program model (Model/BlockProg.lean)
-    match out, Driver.parseBev rest with
+    match (if d.noprog then "skip" else out), Driver.parseBev rest with
     | "ok", some e =>
       let (bp, out') := Driver.bpProgEv d.bprog e (Driver.evWaiter e)
       ({ d with block := b, bprog := bp }, out')
     | _, _ => ({ d with block := b }, out)
-  | "bpp" :: rest => let (bp, out) := Driver.bpProgOp d.bprog rest; ({ d with bprog := bp }, out)
+  | "bpp" :: rest => if d.noprog then (d, "ok") else let (bp, out) := Driver.bpProgOp d.bprog rest; ({ d with bprog := bp }, out)
+  | ["noprog"] => ({ d with noprog := true }, "ok")
   | "gev" :: rest =>
     let (g, out) := Driver.gateOp d.gate rest
-    if out != "ok" then ({ d with gate := g }, out) else
+    if out != "ok" || d.noprog then ({ d with gate := g }, out) else
     (match Driver.parseGev rest with
      | some e =>
        -- the protocol accepts the step; is it also a step of the program (Model/GateProg.lean)?
        let (r, ok) := Driver.gprogEv d.gprog d.gate e
        ({ d with gate := g, gprog := r }, if ok then "ok" else "rejected-prog")
      | none => ({ d with gate := g }, out))
-  | "gpc" :: rest => let (r, out) := Driver.gprogObs d.gprog d.gate rest; ({ d with gprog := r }, out)
+  | "gpc" :: rest => if d.noprog then (d, "ok") else let (r, out) := Driver.gprogObs d.gprog d.gate rest; ({ d with gprog := r }, out)
   | ["pend"] => ({ d with proto := {}, gate := {}, gprog := {} }, Driver.protoEnd d.proto)
   | "open" :: id :: backend :: _ =>
     ({ d with cur := id }.putSv { store := { pebble := backend == "pebble" } }, "ok")
